@@ -205,3 +205,9 @@ Proof.
                            (find_last_not_of_prefix h s pos (N.lt_le_incl _ _ H) Hp))).
 Qed.
 Print Assumptions C18_backward_search_prefix.
+
+(* ---- outside std::string_view's domain (its precondition is n <= size()): tlx clamps; run against the real code as well *)
+Theorem C18_remove_prefix_suffix_clamp : forall h n, size h <= n ->
+  SV.remove_prefix h n = SV.remove_prefix h (size h) /\ SV.remove_suffix h n = SV.remove_suffix h (size h).
+Proof. exact remove_prefix_suffix_clamp. Qed.
+Print Assumptions C18_remove_prefix_suffix_clamp.
